@@ -203,7 +203,8 @@ def many_classes(chk: Check, rng):
                         # the rows recorded in this batch were produced by the class whose sample() returned last (ground truth, not what the scheduler says)
                         produced.extend([returned[-1] if returned else type(smp).__name__] * (len(cal_.params_samp) - n0))
                         tables.append(dict(cal_.samplers_id_table))
-                order[1]._needs = 50          # the second class of the first line-up cannot work on a history this short
+                if it % 2 == 0:
+                    order[1]._needs = 50      # (every other calibration) the second class of the first line-up cannot work on a history this short
                 run_batches(cal, 4)
                 order[1]._needs = 0
                 cal.set_samplers(mk(order[4:8])); run_batches(cal, 4)
